@@ -330,6 +330,13 @@ class FSM(addons.AddonPersistence, block.SBlock):
         self._stopped = True
         super().stop()
 
+    def save_persistent_state(self) -> None:
+        if self._stopped:
+            # An event handled during the cleanup. The timer was cancelled by stop(),
+            # do not overwrite the state saved at the stop with a state without its timer.
+            return
+        super().save_persistent_state()
+
     def _timer_expired(self, timed_event: str|block.EventType) -> None:
         """Timer callback: forget the expired timer and deliver the timed event."""
         # An expired timer must not be reported by get_state() as a running one;
